@@ -27,9 +27,12 @@ CHECKS = {
    technique="TLA+ model checking (TLC) of the abstract event queue + TLC trace validation of recorded API histories"),
  "C10": dict(level="exploration", design="DESIGN.md §4 C10",
    text="Every history/program the other checks generate (valid by the specifications' preconditions) is run on the release-flag build, where "
-        "a library abort or fatal signal is recorded, and on an ASan+UBSan build with fiber annotations; any abort or sanitizer report is a violation.",
+        "a library abort or fatal signal is recorded, and on an ASan+UBSan build with fiber annotations; any abort or sanitizer report is a violation. "
+        "spec/EventExec.tla model-checks the dispatcher's pointer discipline; spec/DataArray.tla model-checks the capacity discipline of the data arrays "
+        "(count, believed capacity, allocated elements per backing array) for all call sequences over 4 small objects, and spec/DataArrayTrace.tla judges the "
+        "allocator-observed capacity state after every call of seeded valid histories across the real doubling thresholds by the model's own predicates.",
    note="Exploration under instrumentation guided by the specifications' generators; not a proof of memory safety. UBSan null/alignment checks are off by design.",
-   technique="spec-generated valid behaviours replayed under ASan/UBSan and release asserts"),
+   technique="spec-generated valid behaviours replayed under ASan/UBSan and release asserts; TLA+ capacity-discipline model with allocator-observed trace validation"),
  "C04": dict(level="model_checking", design="DESIGN.md §4 C04",
    text="The property is a monitor in spec/KMon.tla, a total TLA+ step function over the kernel event vocabulary: waits return at the right time for exactly one cause, no stale wake-ups, armed timers fire, nobody stays suspended after its awaited thing happened. "
         "TLC folds the monitor over traces recorded from the real library by harness/kernel_replay running seeded programs of the relevant "
